@@ -24,7 +24,7 @@ CODES = ['1;96', '36', '1;94', '95', '2;35', '93', '1;33', '35', '1;37', '1;92',
 
 def plan(tier, seed):
     if tier == 'quick':
-        return [{'n': 14} for _ in range(16)]
+        return [{'n': 45} for _ in range(16)]
     return [{'n': 350} for _ in range(64)]
 
 
